@@ -115,6 +115,15 @@ def ref_constraint(name, bound, v):
             return True
         return {type(v), type(bound)} in TOLERANCE
     if name == "enum":
+        import enum as _enum
+        if isinstance(bound, _enum.EnumMeta):
+            # an Enum class as the constraint: membership is "EnumClass(value) succeeds"
+            try:
+                bound(v)
+                return True
+            except Exception:
+                return False
+
         def _eq(a, b):
             try:
                 return bool(a == b)
